@@ -16,8 +16,11 @@ class InvertedBooleanCheckTransformer(LibcstResultTransformer):
         if not self.node_is_selected(original_node):
             return updated_node
 
-        if isinstance(updated_node.operator, cst.Not) and isinstance(
-            (comparison := updated_node.expression), cst.Comparison
+        if (
+            isinstance(updated_node.operator, cst.Not)
+            and isinstance((comparison := updated_node.expression), cst.Comparison)
+            # `not a == b == c` is `a != b or b != c`, not `a != b != c`
+            and len(comparison.comparisons) == 1
         ):
             return self.report_new_comparison(original_node, comparison)
         return updated_node
@@ -32,18 +35,31 @@ class InvertedBooleanCheckTransformer(LibcstResultTransformer):
             if comparison.comparisons[0].comparator.value == "True":
                 self.report_change(original_node)
                 return cst.UnaryOperation(
-                    operator=cst.Not(), expression=comparison.left
+                    operator=cst.Not(),
+                    expression=comparison.left,
+                    lpar=original_node.lpar,
+                    rpar=original_node.rpar,
                 )
 
             # Handle 'not status is False' -> 'status'
             if comparison.comparisons[0].comparator.value == "False":
                 self.report_change(original_node)
-                return comparison.left
+                left = comparison.left
+                return left.with_changes(
+                    lpar=[*original_node.lpar, *left.lpar],
+                    rpar=[*left.rpar, *original_node.rpar],
+                )
 
         inverted_comparisons = self._invert_comparisons(comparison)
 
         self.report_change(original_node)
-        return cst.Comparison(left=comparison.left, comparisons=inverted_comparisons)
+        # The parentheses of `(not a == b)` now belong to the comparison.
+        return cst.Comparison(
+            left=comparison.left,
+            comparisons=inverted_comparisons,
+            lpar=original_node.lpar,
+            rpar=original_node.rpar,
+        )
 
     def _invert_comparisons(
         self, comparison: cst.Comparison
@@ -63,8 +79,14 @@ class InvertedBooleanCheckTransformer(LibcstResultTransformer):
                     new_operator = cst.GreaterThan()
                 case cst.GreaterThanEqual():
                     new_operator = cst.LessThan()
-                case _:
-                    new_operator = comparison_op
+                case cst.In():
+                    new_operator = cst.NotIn()
+                case cst.NotIn():
+                    new_operator = cst.In()
+                case cst.Is():
+                    new_operator = cst.IsNot()
+                case cst.IsNot():
+                    new_operator = cst.Is()
 
             inverted_comparisons.append(
                 comparison_op.with_changes(operator=new_operator)
